@@ -101,6 +101,27 @@ var properties = map[string]*propSpec{
 		},
 		Assumptions: assume("the slice oracle is spec.SliceIndices, pinned to CPython's slice semantics by a digest over 33775 combinations (spec/slice_test.go)", "integers outside Go's int are ErrorInvalidArgument at parse time and out of the property's domain"),
 	},
+	"C12": {
+		Title: "Accessor mode changes only the wrapping of results, never what is selected",
+		Checks: []checkSpec{
+			{Test: "TestC12_Parity", Quick: 30000, Thorough: 500000, Rapid: true},
+		},
+		Assumptions: assume("relational oracle: the two modes are compared with each other (what is selected is C01's business)"),
+		Floors: []floor{
+			{Check: "TestC12_Parity", Class: "nontrivial", Min: 0.15},
+			{Check: "TestC12_Parity", Class: "function-after-group-step", Min: 0.05},
+		},
+	},
+	"C14": {
+		Title: "Functions see every selected value once, in order; aggregates see all of them",
+		Checks: []checkSpec{
+			{Test: "TestC14_Calls", Quick: 40000, Thorough: 600000, Rapid: true},
+		},
+		Assumptions: assume(specAssumption, "call counts of functions inside && / || filters are not pinned by the property (short-circuit is allowed) and are not asserted; a '$'-rooted operand function is only required to be called with the right argument (how often is not pinned)"),
+		Floors: []floor{
+			{Check: "TestC14_Calls", Class: "nontrivial", Min: 0.08},
+		},
+	},
 	"C15": {
 		Title: "Runtime errors name a real failing step: the deepest one, and the right kind",
 		Checks: []checkSpec{
